@@ -773,8 +773,12 @@ func (v *VC) genInstr(in ssa.Instruction, g string, heap *Heap) {
 	case *ssa.Next:
 		v.genNext(i, g, heap)
 	case *ssa.Go:
-		v.unsupp("go statement (spawned body not verified; treated as an arbitrary call)")
-		v.havocAll(heap, false)
+		if fn := v.goTarget(i); fn != nil && goBodyReadOnly(fn) {
+			v.note("go statement: spawned body %s is not verified; it contains no store to memory of the spawner (syntactic check), its callees are assumed not to write memory the spawner observes", fn.Name())
+		} else {
+			v.unsupp("go statement (spawned body not verified; treated as an arbitrary call)")
+			v.havocAll(heap, false)
+		}
 	case *ssa.Select:
 		v.unsupp("select (treated as an arbitrary call returning arbitrary values)")
 		v.havocAll(heap, false)
@@ -796,6 +800,54 @@ func (v *VC) genInstr(in ssa.Instruction, g string, heap *Heap) {
 			v.declare(val)
 		}
 	}
+}
+
+func (v *VC) goTarget(i *ssa.Go) *ssa.Function {
+	if mc := v.closureOf(i.Call.Value); mc != nil {
+		return mc.Fn.(*ssa.Function)
+	}
+	if f := i.Call.StaticCallee(); f != nil && f.Blocks != nil {
+		return f
+	}
+	return nil
+}
+
+// goBodyReadOnly: the function (and closures it creates) never stores through an address that is
+// not rooted at one of its own allocations, and never updates a map it did not create.
+func goBodyReadOnly(fn *ssa.Function) bool {
+	var local func(x ssa.Value) bool
+	local = func(x ssa.Value) bool {
+		switch a := x.(type) {
+		case *ssa.Alloc, *ssa.MakeMap, *ssa.MakeSlice:
+			return true
+		case *ssa.FieldAddr:
+			return local(a.X)
+		case *ssa.IndexAddr:
+			return local(a.X)
+		case *ssa.Slice:
+			return local(a.X)
+		}
+		return false
+	}
+	for _, b := range fn.Blocks {
+		for _, in := range b.Instrs {
+			switch i := in.(type) {
+			case *ssa.Store:
+				if !local(i.Addr) {
+					return false
+				}
+			case *ssa.MapUpdate:
+				if !local(i.Map) {
+					return false
+				}
+			case *ssa.MakeClosure:
+				if f, ok := i.Fn.(*ssa.Function); ok && !goBodyReadOnly(f) {
+					return false
+				}
+			}
+		}
+	}
+	return true
 }
 
 func (v *VC) contractAllowsPanic() bool {
@@ -1094,10 +1146,12 @@ func (v *VC) genTypeAssert(i *ssa.TypeAssert, g string) {
 	v.names[i] = n
 	if _, isIface := i.AssertedType.Underlying().(*types.Interface); isIface {
 		okN := v.freshName("taok")
-		v.emit("(declare-const %s Bool)", okN)
-		v.assume("true", fmt.Sprintf("(=> %s (not (= %s inil)))", okN, x))
+		v.features["implements"] = true
 		if emptyIface(i.AssertedType) {
-			v.assume("true", fmt.Sprintf("(= %s (not (= %s inil)))", okN, x))
+			v.emit("(define-fun %s () Bool (not (= %s inil)))", okN, x)
+		} else {
+			// whether a value implements an interface is a function of its dynamic type
+			v.emit("(define-fun %s () Bool (and (not (= %s inil)) (implements (iface-tid %s) %d)))", okN, x, x, v.typeID(i.AssertedType))
 		}
 		if i.CommaOk {
 			v.emit("(define-fun %s_0 () Iface (ite %s %s inil))", n, okN, x)
@@ -1164,9 +1218,97 @@ func (v *VC) genReturn(i *ssa.Return, g string, heap *Heap) {
 	}
 	v.retCount++
 	v.cover(fmt.Sprintf("cover:return%d-reachable", v.retCount), g, i.Pos())
+	env.witness = true
 	for _, e := range v.contract.Ensures {
+		if w, ok := v.contract.Witness[e.Label]; ok && e.Label != "" {
+			if v.ensuresWithWitness(e, w, env, g, i) {
+				continue
+			}
+		}
 		v.oblige("ensures", e.Label, g, v.evalSpec(e, env), i.Pos(), e.Src)
 	}
+}
+
+// ensuresWithWitness proves "G ==> exists f :: K1 && ... && Kn" by the author's witness for f
+// (sound: an instance implies the existential), one obligation per conjunct. Returns false when
+// the witness expression is not in scope at this return (the plain clause is used instead).
+func (v *VC) ensuresWithWitness(e Clause, wsrc string, env *SpecEnv, g string, ret *ssa.Return) bool {
+	ast, err := ParseSpec(e.Src)
+	if err != nil {
+		return false
+	}
+	var guard SExpr
+	body := ast
+	if b, ok := ast.(SBinary); ok && b.Op == "==>" {
+		guard, body = b.L, b.R
+	}
+	q, ok := body.(SQuant)
+	if !ok || q.Forall || len(q.Vars) != 1 {
+		return false
+	}
+	wt, werr := v.evalClause(Clause{Src: wsrc, File: e.File, Line: e.Line}, env)
+	if werr != nil {
+		return false
+	}
+	gt := "true"
+	if guard != nil {
+		var gerr error
+		func() {
+			defer func() {
+				if r := recover(); r != nil {
+					if _, is := r.(specErr); is {
+						gerr = fmt.Errorf("spec")
+						return
+					}
+					panic(r)
+				}
+			}()
+			gt = v.ev(guard, env).T
+		}()
+		if gerr != nil {
+			return false
+		}
+	}
+	var conj []SExpr
+	var split func(x SExpr)
+	split = func(x SExpr) {
+		if b, ok := x.(SBinary); ok && b.Op == "&&" {
+			split(b.L)
+			split(b.R)
+			return
+		}
+		conj = append(conj, x)
+	}
+	split(q.Body)
+	we := *env
+	we.witness = false
+	we.bound = map[string]TV{}
+	for k, b := range env.bound {
+		we.bound[k] = b
+	}
+	we.bound[q.Vars[0]] = TV{T: wt, Typ: tInt}
+	for k, c := range conj {
+		var ct string
+		failed := false
+		func() {
+			defer func() {
+				if r := recover(); r != nil {
+					if se, is := r.(specErr); is {
+						v.specErrors = append(v.specErrors, fmt.Sprintf("%s:%d: %s", e.File, e.Line, se.msg))
+						failed = true
+						return
+					}
+					panic(r)
+				}
+			}()
+			ct = v.ev(c, &we).T
+		}()
+		if failed {
+			ct = "false"
+		}
+		v.oblige("ensures", fmt.Sprintf("%s.%d", e.Label, k+1), g, fmt.Sprintf("(=> %s %s)", gt, ct), ret.Pos(), fmt.Sprintf("%s  [conjunct %d with witness %s = %s]", e.Src, k+1, q.Vars[0], wsrc))
+	}
+	return true
 }
 
 func (v *VC) genBinOp(i *ssa.BinOp, g string) {
